@@ -8,12 +8,27 @@ Local Open Scope nat_scope.
 
 Inductive kind := KArray | KDList | KSList.
 Inductive mstate := MA (a : al) | ML (dbl : bool) (s : ll).
-Inductive stepx := SOp (o : op) (r : out) | SBack (l : list Z).
+Inductive stepx :=
+| SOp (o : op) (r : out)
+| SBack (l : list Z)
+(* aliasing judgement: the harness keeps every slice returned by Values(); at the end of the trace it reads them
+   again. Each must still hold what it held when it was returned (the recorded result of that Values() call):
+   a result of Values() is a snapshot of the sequence, no later list operation may rewrite it. *)
+| SKept (now : list (list Z)).
 Record case := { c_kind : kind; c_steps : list stepx }.
 
 (* compact constructors for the case files *)
 Definition s_ (o : op) (r : res) : stepx := SOp o (r, 0).
 Definition sb_ (o : op) (r : res) (bytes : nat) : stepx := SOp o (r, bytes).
+(* shorter forms of the three observation steps that make up most of a case file *)
+Definition T := true.
+Definition F := false.
+Definition gs_ (vs : list Z) (oks : list bool) : stepx := s_ OGets (RGets (combine vs oks)).
+Definition ix_ (r : list Z) : stepx := s_ (OIndexOfs [0; 1; 2; 3; 4]%Z) (RList r).
+Definition ce_ (r : list bool) : stepx := s_ (OContainsEach [0; 1; 2; 3; 4]%Z) (RBools r).
+(* the same step, with bytes written to stdout during the call *)
+Definition sbc_ (x : stepx) (bytes : nat) : stepx :=
+  match x with SOp o r => SOp o (fst r, bytes) | _ => x end.
 
 Definition zlist_eqb := list_eqb Z.eqb.
 Definition zb_eqb (a b : Z * bool) : bool := (fst a =? fst b)%Z && Bool.eqb (snd a) (snd b).
@@ -39,15 +54,22 @@ Definition m_step (m : mstate) (o : op) : mstate * out :=
   | ML d s => let '(s', r) := ll_step d s o in (ML d s', r)
   end.
 
-Definition check_step (st : mstate * list Z) (x : stepx) : (mstate * list Z) * nat :=
-  let '(m, l) := st in
+(* checker state: model state, reference sequence, recorded results of the Values() calls so far (latest first) *)
+Definition cstate : Type := mstate * list Z * list (list Z).
+Definition keep (o : op) (r : out) (kept : list (list Z)) : list (list Z) :=
+  match o, fst r with OValues, RList l => l :: kept | _, _ => kept end.
+
+Definition check_step (st : cstate) (x : stepx) : cstate * nat :=
+  let '(m, l, kept) := st in
   match x with
   | SOp o r =>
     let '(m', mo) := m_step m o in
     let '(l', so) := seq_step l o in
-    ((m', l'), kind_of (out_eqb mo r) (out_eqb so r))
+    ((m', l', keep o r kept), kind_of (out_eqb mo r) (out_eqb so r))
   | SBack b =>
     (st, kind_of (match m with MA a => zlist_eqb (al_e a) b | ML _ _ => true end) true)
+  | SKept now =>
+    (st, kind_of true (list_eqb zlist_eqb now (rev kept)))
   end.
 
 (* Like Base.scan, but a kind-1 step (model differs, property holds) does not end the scan: the reference
@@ -63,5 +85,5 @@ Fixpoint scan_k2 {St X} (f : St -> X -> St * nat) (s : St) (xs : list X) (i firs
               else i * 4 + k
   end.
 
-Definition check_case (c : case) : nat := scan_k2 check_step (m_init (c_kind c), []) (c_steps c) 0 0.
+Definition check_case (c : case) : nat := scan_k2 check_step (m_init (c_kind c), [], []) (c_steps c) 0 0.
 Definition mismatches (cs : list case) : list (nat * nat) := find_bad check_case cs.
